@@ -87,6 +87,30 @@ def run(rep, tier, rng):
                         {"op": "wrapper", "alg": al, "el": el, "d": d, "side": sd, "obs": c.obs_json(o2),
                          "py": f"semantic_pointer.{WRAP[el]}({d}, algebra=A, sidedness={algs.SIDE_PY[sd]}).v"},
                         ("wrapper", al, el, d, sd))
+                    # the wrapper is a pointer of the requested algebra: binding it to another pointer of that algebra works and is
+                    # the algebra's binding with the element
+                    if o2[0] == "ok" and d <= 16:
+                        w = getattr(sp, WRAP[el])(d, algebra=A, sidedness=S)
+                        pv = algs.rand_vec(rng, d)
+                        pp = sp.SemanticPointer(algs.fl(pv), algebra=A)
+                        rep.case(("wrapper-acts", al, el, d, sd))
+                        rep.count("wrapper-pointer-binds-in-its-algebra")
+                        for order, fn, direct in (("p * e", lambda: (pp * w).v, lambda: A.bind(pp.v, w.v)), ("e * p", lambda: (w * pp).v, lambda: A.bind(w.v, pp.v))):
+                            ow, od = c.outcome(fn), c.outcome(direct)
+                            if w.algebra is not A or ow[0] != od[0] or (ow[0] == "ok" and not np.allclose(ow[1], od[1], atol=1e-9 * (1 + np.abs(od[1]).max()))):
+                                rep.violation(f"semantic_pointer.{WRAP[el]}({d}, algebra={al}, sidedness={sd}): {order} is not the algebra's binding with the element "
+                                              f"(wrapper algebra {type(w.algebra).__name__}; pointer-level {ow[0]}, algebra-level {od[0]})",
+                                              {"case": {"alg": al, "el": el, "d": d, "side": sd, "order": order, "p": pv},
+                                               "python": algs.PRELUDE + "from nengo_spa import semantic_pointer as sp\n" + f"A = {algs.alg_py(al)}\n"
+                                               f"e = sp.{WRAP[el]}({d}, algebra=A, sidedness={algs.SIDE_PY[sd]}); p = sp.SemanticPointer(np.array({pv}, float), algebra=A)\n"
+                                               f"assert e.algebra is A\nr = {order}\n"})
+                    # a dimensionality that is a NumPy integer is a dimensionality like any other
+                    if d <= 9:
+                        o_np = c.observe(lambda: getattr(A, meth)(np.int64(d), sidedness=S))
+                        add(f"check_element {al} {el} {c.nat(d)} {sd} {T} {obs_t(o_np)}",
+                            {"op": "element-numpy-int-d", "alg": al, "el": el, "d": d, "side": sd, "obs": c.obs_json(o_np),
+                             "py": f"A.{meth}(np.int64({d}), sidedness={algs.SIDE_PY[sd]})"},
+                            ("element-np", al, el, d, sd))
                     # the element acting on random vectors, both sides (model decides what comes out)
                     if o[0] == "ok":
                         e = np.asarray(o[1], dtype=float)
